@@ -212,3 +212,122 @@ func refsFollowDefs(text string) bool {
 		e.value(v)
 	}
 }
+
+// orderDiverges replays the typedef bookkeeping of text in both orders, the
+// text's (a value before its decorator) and zson.Analyzer.convertValue's (the
+// decorator first, after pre-entering a directly nested typedef), and reports
+// whether, within the first upto+1 top-level values, some reference resolves to
+// a different definition or some name is left bound to a different definition.
+// It is the necessary condition for blaming the analyzer's evaluation order: a
+// reader that loses typedefs in some other way does not make the orders differ.
+func orderDiverges(text string, upto int) bool {
+	p := zson.NewParser(strings.NewReader(text))
+	a, b := newOrderWalker(false), newOrderWalker(true)
+	for i := 0; i <= upto; i++ {
+		v, err := p.ParseValue()
+		if err != nil || v == nil {
+			return false
+		}
+		a.value(v)
+		b.value(v)
+		for ref, site := range a.refs {
+			if b.refs[ref] != site {
+				return true
+			}
+		}
+		for name, site := range a.defs {
+			if b.defs[name] != site {
+				return true
+			}
+		}
+	}
+	return false
+}
+
+type orderWalker struct {
+	analyzerOrder bool
+	defs          map[string]any           // name -> defining node
+	refs          map[*astzed.TypeName]any // reference -> defining node (nil: unresolved)
+}
+
+func newOrderWalker(analyzerOrder bool) *orderWalker {
+	return &orderWalker{analyzerOrder: analyzerOrder, defs: map[string]any{}, refs: map[*astzed.TypeName]any{}}
+}
+
+func (w *orderWalker) value(v astzed.Value) {
+	switch v := v.(type) {
+	case *astzed.ImpliedValue:
+		w.any(v.Of)
+	case *astzed.DefValue:
+		w.any(v.Of)
+		w.defs[v.TypeName] = v
+	case *astzed.CastValue:
+		if !w.analyzerOrder {
+			w.value(v.Of)
+			w.typ(v.Type)
+			return
+		}
+		// Analyzer.convertValue
+		switch of := v.Of.(type) {
+		case *astzed.DefValue:
+			w.value(of)
+		case *astzed.CastValue:
+			w.typ(of.Type)
+		}
+		w.typ(v.Type)
+		w.value(v.Of)
+	}
+}
+
+func (w *orderWalker) any(a astzed.Any) {
+	switch a := a.(type) {
+	case *astzed.Record:
+		for _, f := range a.Fields {
+			w.value(f.Value)
+		}
+	case *astzed.Array:
+		for _, e := range a.Elements {
+			w.value(e)
+		}
+	case *astzed.Set:
+		for _, e := range a.Elements {
+			w.value(e)
+		}
+	case *astzed.Map:
+		for _, e := range a.Entries {
+			w.value(e.Key)
+			w.value(e.Value)
+		}
+	case *astzed.TypeValue:
+		w.typ(a.Value)
+	case *astzed.Error:
+		w.value(a.Value)
+	}
+}
+
+func (w *orderWalker) typ(t astzed.Type) {
+	switch t := t.(type) {
+	case *astzed.TypeDef:
+		w.typ(t.Type)
+		w.defs[t.Name] = t
+	case *astzed.TypeName:
+		w.refs[t] = w.defs[t.Name]
+	case *astzed.TypeRecord:
+		for _, f := range t.Fields {
+			w.typ(f.Type)
+		}
+	case *astzed.TypeArray:
+		w.typ(t.Type)
+	case *astzed.TypeSet:
+		w.typ(t.Type)
+	case *astzed.TypeMap:
+		w.typ(t.KeyType)
+		w.typ(t.ValType)
+	case *astzed.TypeUnion:
+		for _, m := range t.Types {
+			w.typ(m)
+		}
+	case *astzed.TypeError:
+		w.typ(t.Type)
+	}
+}
